@@ -86,6 +86,7 @@ def check_text(tab, notation, opts, tag, out, desc, w=None):
     nclosed = sum(1 for b in tab if b.closed)
     if text.count('(x)') != nclosed:
         out.append((f'C19|text-closure-marks', f'{desc}: {text.count("(x)")} closure marks for {nclosed} closed branches'))
+    return text
 
 
 def check_markup(fmt, tab, notation, opts, out, desc, w=None):
@@ -127,6 +128,7 @@ def check_markup(fmt, tab, notation, opts, out, desc, w=None):
     nclosed = sum(1 for b in tab if b.closed)
     if want[('flag', 'closure')] != nclosed:
         out.append((f'C19|tree-closure-nodes', f'{desc}: tree has {want[("flag", "closure")]} closure nodes for {nclosed} closed branches'))
+    return text
 
 
 def check_case(case):
@@ -156,6 +158,7 @@ def check_case(case):
                 writers[fmt, notation] = (TabWriter(fmt, notation, **opts), opts)
             except Exception as e:
                 out.append((f'C19|writer-construct-raises|{fmt}|{type(e).__name__}', f'{desc}: TabWriter({fmt!r}, {notation!r}, **{opts}) raised {e!r}'))
+    first = {}
     for fmt in FORMATS:
         for notation in NOTATIONS:
             if (fmt, notation) not in writers:
@@ -163,9 +166,9 @@ def check_case(case):
             w, opts = writers[fmt, notation]
             try:
                 if fmt == 'text':
-                    check_text(tab, notation, opts, fam, out, desc, w)
+                    first[fmt, notation] = check_text(tab, notation, opts, fam, out, desc, w)
                 else:
-                    check_markup(fmt, tab, notation, opts, out, desc, w)
+                    first[fmt, notation] = check_markup(fmt, tab, notation, opts, out, desc, w)
             except Exception as e:
                 import traceback
                 tb = traceback.extract_tb(e.__traceback__)
@@ -173,6 +176,19 @@ def check_case(case):
                 if where == 'harness':
                     raise
                 out.append((f'C19|raises|{fmt}|{type(e).__name__}|{where}', f'{desc}: TabWriter({fmt!r}, {notation!r}, **{opts}) raised {type(e).__name__}: {e}'))
+    # second round, after every other writer has been used in between: same writer, same tableau, same text
+    for key in case.get('second_round') or sorted(first):
+        key = tuple(key)
+        if first.get(key) is None:
+            continue
+        try:
+            again = writers[key][0](tab)
+        except Exception as e:
+            out.append((f'C19|raises|{key[0]}|{type(e).__name__}|second-round', f'{desc}: second rendering with the same {key} writer raised {e!r}'))
+            continue
+        if again != first[key]:
+            out.append((f'C19|nondeterministic|{key[0]}', f'{desc}: the {key[1]} {key[0]} writer renders the same tableau differently after '
+                        f'other writers have been used in between'))
     seen = set()
     uniq = []
     for fp, d in out:
@@ -208,6 +224,7 @@ def run_shard(shard, acc):
                           max_infix=data.draw(st.sampled_from([0, 0, 2, 3, 5]))),
             html=dict(fulldoc=data.draw(st.booleans()), inline_css=data.draw(st.booleans()), wrapper=data.draw(st.booleans())),
             latex=dict(fulldoc=data.draw(st.booleans())))
+        case['second_round'] = [list(k) for k in data.draw(st.permutations([(f, n) for f in FORMATS for n in NOTATIONS]))]
         res, info = check_case(case)
         if info.get('raised'):
             acc.count('build-raised (see C09)')
